@@ -336,7 +336,12 @@ package server
 // operation's body is a separate, optional field on the wire. The metadata API dereferences the body, so a handler
 // may hand it over only if it is there - a decodable request must not crash the metadata leader.
 //@ func (*Server).handlePropagatedRequest serves C14
-//@   assumes s != nil && m != nil
+//@   assumes s != nil && m != nil && s.logger != nil && s.ncRaft != nil
+// (no decodable request - whatever operation number it names, the field is a 32-bit integer on the wire - makes the
+//  handler itself fail: no index out of range, no nil dereference; the one way out by panic is a response of the
+//  server's own making that cannot be marshaled)
+//@   safety
+//@   call panic requires [only-for-a-response-that-cannot-be-marshaled] err != nil
 //@ func hasOperationBody serves C14
 //@   requires req != nil
 //@   modifies nothing
